@@ -28,19 +28,19 @@ type selCase struct {
 }
 
 type G struct {
-	id        int
-	wake      chan struct{}
-	state     gstate
-	waitCases []selCase
-	waitSeq   int64
-	fired     int
-	recvVal   Value
-	recvOk    bool
+	id          int
+	wake        chan struct{}
+	state       gstate
+	waitCases   []selCase
+	waitSeq     int64
+	fired       int
+	recvVal     Value
+	recvOk      bool
 	closedPanic bool
-	ready     func() bool
-	what      string
-	isMain    bool
-	name      string
+	ready       func() bool
+	what        string
+	isMain      bool
+	name        string
 }
 
 type Chan struct {
@@ -691,6 +691,19 @@ func (w *Worker) unrecoveredPanic(g *G, tp targetPanic) {
 		if containsAll(site+" "+tp.msg, kp.substr) {
 			if w.ex.Known(kp.id) {
 				p.Findings[kp.id] = true
+				return
+			}
+		}
+	}
+	// a nil dereference inside the os / poll / syscall / regexp packages comes from a
+	// stand-in object of a harness (new(os.File), new(regexp.Regexp)) reaching a method
+	// the harness does not model: the model is incomplete, the code is not at fault
+	if contains(tp.msg, "nil pointer dereference") {
+		for _, pkg := range []string{"(*os.File).", "os.", "internal/poll.", "syscall.", "(*regexp.Regexp).", "(*regexp.machine).", "regexp."} {
+			if len(site) >= len(pkg) && site[:len(pkg)] == pkg {
+				p.Outcome = OutInconclusive
+				p.Why = "engine: a harness stand-in object reached an unmodelled method: " + site
+				w.ex.noteInconclusive(p.Why)
 				return
 			}
 		}
